@@ -52,7 +52,7 @@ def _iv(rng, p, allow_point=True, anm_safe=False, unit=1.0):
             v = 0.0
         kinds = ["do", "noise", "shift"]
         k = kinds[int(rng.integers(3))]
-        d[k][j] = (m, v) if (v > 0 or rng.random() < 0.5 or anm_safe) else m
+        d[k][j] = (m, v) if (v > 0 or rng.random() < 0.5) else m       # a scalar is the documented short form of (m, 0)
         if rng.random() < 0.25:       # overlaps
             k2 = kinds[int(rng.integers(3))]
             if k2 != k and not (anm_safe and {k, k2} == {"noise", "shift"}):
@@ -85,6 +85,17 @@ def gen(tier, seed, shard, nshards):
     for i in range(POOL[tier]["cases"]):
         if i % nshards == shard:
             yield "pooled", {"kind": ("nd", "lganm", "lganm-iv", "anm")[i % 4], "i": i, "K": POOL[tier]["K"], "n": POOL[tier]["n"], "base": int(seed)}
+    # a few very long seeded samples (batched generation re-using a seed shows as repeated blocks of rows)
+    for i, nlong in enumerate((2**18 + 4321, 2**16 + 77, 2**17 + 1234, 2**19 + 99) if tier == "quick" else (2**18 + 4321, 2**20 + 4321, 2**21 + 99, 2**19 + 5, 1500001, 2**16 + 77)):
+        if i % nshards == shard:
+            rng = util.rng_for("C04", seed, "long", i)
+            if i % 2 == 0:
+                B = rng.normal(size=(2, 2))
+                yield "nd", {"mean": np.round(rng.uniform(-5, 5, 2), 2), "cov": B @ B.T + 0.1 * np.eye(2), "n": nlong, "rs": int(rng.integers(0, 2**32)), "check_valid": "ignore"}
+            else:
+                W = np.array([[0.0, 1.5, 0.0], [0.0, 0.0, -0.7], [0.0, 0.0, 0.0]])
+                yield "lganm", {"W": W, "means": np.array([0.5, -1.0, 2.0]), "variances": np.array([1.0, 0.5, 2.0]),
+                                "iv": {"do": {}, "noise": {}, "shift": {0: (1.0, 0.5)}}, "n": nlong, "rs": int(rng.integers(0, 2**32))}
     k = 0
     for i in range(cfg["nd"]):
         if k % nshards == shard:
